@@ -3942,7 +3942,7 @@ class Bind_Stmt(StmtBase):  # R522
             i = string.find(")")
             if i == -1:
                 return
-            lhs, rhs = string[:i], string[i + 1 :]
+            lhs, rhs = string[: i + 1], string[i + 1 :]
         else:
             lhs, rhs = string.split("::", 1)
         lhs = lhs.rstrip()
